@@ -93,6 +93,16 @@ Theorem C07_one_driver_per_target : forall prog d res,
 Proof. exact one_driver_per_target. Qed.
 Print Assumptions C07_one_driver_per_target.
 
+(* 7. Several cycles: starting from any register file and for any sequence of predicate / data
+      inputs, latching the elaborated next-value expressions every cycle produces exactly the
+      register trajectory of the tree interpreter (a register keeps its value, or takes its
+      declared default, in every cycle where none of its branches is active). *)
+Theorem C07_multi_cycle_registers : forall prog d res,
+  elab prog d = Some res ->
+  forall inputs regs, model_run res inputs regs = spec_run d prog inputs regs.
+Proof. exact run_agree. Qed.
+Print Assumptions C07_multi_cycle_registers.
+
 (* ---- non-vacuity: the docstring example of conditional.py extended with a memory, a nested
    otherwise and a chain restarted after an otherwise *)
 Definition ex_prog : list ctree :=
@@ -128,6 +138,15 @@ Example C07_example_values :
   spec_value ex_env2 [(TReg 2, 30)] ex_prog (TWire 3) = Some 115 /\
   spec_mem ex_env2 ex_prog 0 = Some (Some (126, 127, 128)).
 Proof. vm_compute. repeat split; reflexivity. Qed.
+
+(* three cycles of r1, r2 (register file [_; r1; r2]) : hold, then `with a`, then `with c` *)
+Example C07_example_run :
+  spec_run [(TReg 2, 30)] ex_prog
+    [ (fun p => p =? 3, fun r => 100 + r);
+      (fun p => p =? 0, fun r => 200 + r);
+      (fun p => (p =? 2) || (p =? 1), fun r => 300 + r) ] [0; 5; 6]
+  = [[0; 5; 113]; [0; 210; 230]; [0; 312; 312]].
+Proof. vm_compute. reflexivity. Qed.
 
 (* rejected: a chain restarted after an otherwise re-assigns the same wire; an assignment
    under a top-level otherwise only; an assignment under no predicate at all *)
